@@ -1,18 +1,18 @@
 SPECIFICATION Spec
 CONSTANTS
-  P = {1}
-  E = {1, 2}
+  P = {1, 2}
+  E = {1, 3, 4, 5, 7, 8}
   Owner <- OwnerDef
   IsReader <- IsReaderDef
   OnTopic <- OnTopicDef
   Compatible <- CompatibleDef
   DefaultLease = 60000
-  Late = FALSE
-  Leases = {1100, 2500}
-  Dts = {400, 1000}
-  MaxSteps = 10
-  MaxTime = 6000
-  GenK = 40
+  Late = TRUE
+  Leases = {1100}
+  Dts = {2000}
+  MaxSteps = 7
+  MaxTime = 2000
+  GenK = 400
 CONSTRAINT Bound
 VIEW View
 INVARIANT DInv_NoViolation
